@@ -1031,6 +1031,8 @@ def run(repo: Repo, rep, tier: str):
     rep.guarded(check_recurrences, repo, rep)
     rep.guarded(check_ranges, repo, rep)
     rep.guarded(check_homogeneity, repo, rep)
+    from props.c14 import check_purity
+    rep.guarded(check_purity, repo, rep, "C15-R8")
     rep.undecided_item("value agreement of recursive smoothers after seed decay (the recurrence step is decided)")
     rep.undecided_item("indicators outside the reference table (slow stochastic smoothing, adx/di/dm, trima, kama, ...)")
 
